@@ -36,7 +36,8 @@ class Program:
     path tuple)] navigated before the threads start; threads: [[(target, name, args...)]];
     buffered: None or ('class', cap) - the threads run inside Class.buffer_backend(cap)"""
 
-    def __init__(self, is_dict, init, objs, handles, threads, buffered=None):
+    def __init__(self, is_dict, init, objs, handles, threads, buffered=None, pre=()):
+        self.pre = list(pre)       # operations run by the main thread (inside the buffered context) before the threads start
         self.is_dict = is_dict
         self.init = init
         self.objs = objs
@@ -45,8 +46,8 @@ class Program:
         self.buffered = buffered
 
     def __repr__(self):
-        return "Program(is_dict=%r, init=%r, objs=%r, handles=%r, threads=%r, buffered=%r)" % (
-            self.is_dict, self.init, self.objs, self.handles, self.threads, self.buffered)
+        return "Program(is_dict=%r, init=%r, objs=%r, handles=%r, threads=%r, buffered=%r, pre=%r)" % (
+            self.is_dict, self.init, self.objs, self.handles, self.threads, self.buffered, self.pre)
 
 
 def _setup(ns, fam, prog, tmp):
@@ -107,6 +108,8 @@ def _do(ns, objs, handles, op):
         except Exception as e:  # noqa: BLE001
             return ("err", type(e).__name__)
     try:
+        # ("@o", i): the i-th root object itself as the argument (a synced operand on another file)
+        args = [objs[a[1]] if isinstance(a, tuple) and len(a) == 2 and a[0] == "@o" else a for a in args]
         r = apply_call(_target(objs, handles, t), name, list(args))
         if name == "dkeys":
             r = sorted(r, key=repr)
@@ -142,6 +145,8 @@ def run_serial(ns, fam, prog, order):
             cls = bcls_of(fam, prog)
             ctx = cls.buffer_backend(prog.buffered[1]) if prog.buffered[1] is not None else cls.buffer_backend()
             ctx.__enter__()
+        for op in getattr(prog, "pre", ()):
+            _do(ns, objs, handles, op)
         for t in order:
             results[t].append(_do(ns, objs, handles, prog.threads[t][nxt[t]]))
             nxt[t] += 1
@@ -181,6 +186,8 @@ def run_scheduled(ns, fam, prog, chooser, line_level=False, hooks=True):
                 ctx_cls = bcls_of(fam, prog)
                 c = ctx_cls.buffer_backend(prog.buffered[1]) if prog.buffered[1] is not None else ctx_cls.buffer_backend()
                 c.__enter__()
+            for op in getattr(prog, "pre", ()):
+                _do(ns, objs, handles, op)
             results = [[] for _ in prog.threads]
             sc = S.Sched(chooser, line_level=line_level, pkg_dir=os.path.dirname(ns.sc.__file__))
             chooser.all_tids = list(range(len(prog.threads)))
@@ -285,6 +292,20 @@ def gen_program(rng, fam, profile):
         if rng.random() < 0.7:
             t1.insert(0, ("o0", "dsetitem", "n", {"m": {"k": 1}}) if is_dict else ("o0", "lappend", {"m": {"k": 1}}))
         return Program(is_dict, inits, objs, [hd for hd in handles if hd[0] == 0], [t0, t1], None)
+    if profile == "cross":
+        # two files, one object each; each thread writes INTO its own object FROM the other one
+        # (`a.update(b)` / `a[k] = b` / `a.append(b)` ... next to the mirror image).  Reading the
+        # operand must not take a lock while the own file lock is held, or the two threads can
+        # wait for each other forever.  Only deadlock / leaked locks (C10) are judged.
+        inits = {0: json.loads(json.dumps(init)), 1: json.loads(json.dumps(init))}
+        def cross_op(me, you):
+            if is_dict:
+                return rng.choice([("o%d" % me, "dupdate", ("@o", you), {}), ("o%d" % me, "dsetitem", "peer", ("@o", you)),
+                                   ("o%d" % me, "dsetdefault", "peer", ("@o", you)), ("o%d" % me, "dreset", ("@o", you))])
+            return rng.choice([("o%d" % me, "lappend", ("@o", you)), ("o%d" % me, "lextend", ("@o", you)),
+                               ("o%d" % me, "liadd", ("@o", you)), ("o%d" % me, "lsetitem", 0, ("@o", you)),
+                               ("o%d" % me, "linsert", 0, ("@o", you)), ("o%d" % me, "lreset", ("@o", you))])
+        return Program(is_dict, inits, [0, 1], [], [[cross_op(0, 1)], [cross_op(1, 0)]], None)
     if profile == "bufctx":
         buffered = None
         n_threads = 2
@@ -319,6 +340,23 @@ def gen_program(rng, fam, profile):
         if rng.random() < 0.5:
             threads.reverse()
         return Program(is_dict, inits, objs, [], threads, None)
+    if profile == "buffered" and getattr(fam, "buffered", None) == "serialized" and rng.random() < 0.25:
+        # the forced flush of file 0, triggered by the FIRST LOAD of file 1 through a private object
+        # (a plain read: no collection lock), racing a writer of file 0: the writer modifies file 0
+        # (it enters the buffer, modified), then mutates it again while the reader's load of file 1
+        # overflows the capacity (one document fits, two do not)
+        objs = [0, 1]
+        inits = {0: json.loads(json.dumps(init)), 1: json.loads(json.dumps(init))}
+        w1 = gen_op(rng, is_dict, init, [0], [], False, profile)
+        w2 = gen_op(rng, is_dict, init, [0], [], False, profile)
+        rd = rng.choice([("dlen",), ("dget", "a", None), ("dgetitem", "a"), ("dcontains", "a")] if is_dict else
+                        [("llen",), ("lgetitem", 0), ("lgetitem", 3)])
+        threads = [[w2], [("o1",) + rd]]
+        if rng.random() < 0.5:
+            threads.reverse()
+        # (the first modification is made before the threads start, so that one preemption - inside
+        # the reader's flush - is enough; capacity: one document fits, two do not)
+        return Program(is_dict, inits, objs, [], threads, ("class", len(json.dumps(init)) + 10), pre=[w1])
     for t in range(n_threads):
         ops = []
         n_ops = 1 if n_threads == 3 or rng.random() < 0.6 else 2
@@ -442,6 +480,9 @@ def judge(prog, serial, run, profile):
         prog_buffered = True
     else:
         prog_buffered = bool(prog.buffered)
+    if any(isinstance(a, tuple) and len(a) == 2 and a[0] == "@o" for t in prog.threads for op in t for a in op[2:]):
+        # synced operands read without a lock while another thread writes them: only C10 is judged
+        return v
     if any(op[1] in CTX for t in prog.threads for op in t):
         # contexts entered / left concurrently with other threads' operations: only the lock
         # discipline (C10) is claimed for such programs, not serial equivalence
@@ -648,7 +689,10 @@ def unit_conc(args):
 
         starts = [None] + tids[1:]
         for st in starts:
-            for switches, start, run in S.explore(lambda ch, st=st: run_once(_with_start(ch, st)), bound, max(budget // len(starts), 1)):
+            # (deadlocks depend on the order of lock acquisitions only: the mirror-image programs
+            # are explored at acquisition points, which makes a deeper bound affordable)
+            kinds = ("acq",) if profile == "cross" else None
+            for switches, start, run in S.explore(lambda ch, st=st: run_once(_with_start(ch, st)), bound, max(budget // len(starts), 1), kinds):
                 n += 1
                 for props, kind, msg in judge(prog, serial, run, profile):
                     sig = c14_signature(prog, run, kind) if "C14" in props else "%s:%s" % (props[0], kind)
